@@ -14,3 +14,18 @@ claim("C17",
       "Decides, for every struct field of package spine and every function of spine and model, that locking is consistent: each field with a locked write is accessed only under the lock common to its accesses (inferred on every run, 21 guarded fields and 4 atomic fields on the pinned tree), no write or mutating library call happens under a read lock, every Lock is released on every path, and the held->acquired order over all 20+ mutexes along synchronous call edges (through interfaces, promoted-method wrappers, generic instantiations and synchronously run closures) is acyclic. A lockset argument: necessary for, not equal to, freedom from data races and deadlocks.",
       "Trusted: go/ssa, the call graph (static, VTA, CHA fallback); go statements and timers start lock-free contexts; external interfaces (SHIP writer, application callbacks) do not call back synchronously. Never-guarded mutable fields are recorded as known findings.",
       "DESIGN.md §4 C17")
+claim("C01",
+      "path-sensitive effect counting over a finite abstraction (SSA path enumeration with callee summaries) + provenance rules on response builders and call sites",
+      "Decides, for all 84 valuations of (classifier, ackRequest, approval callbacks, payload kind), on every path class of the call tree rooted at ProcessCmd how many error results, success results and replies are sent, and compares them with the SPINE classifier table (never a response to a result, never two, exactly one error for a rejected message, one reply for an accepted read, acknowledgement iff requested, write answered by the write executor). Decides how the two response builders and all 17 call sites address the response. Necessary conditions; payload values and message histories are not decided.",
+      "Trusted: go/ssa, call resolution (static, VTA, CHA fallback); loops are unrolled at most once; the abstraction of the datagram to four dimensions; sender methods send one datagram per call.",
+      "DESIGN.md §4 C01")
+claim("C08",
+      "dominance guards + truth-table simulation of the role/type checker + lockset critical-section rule + retain-predicate truth tables + structural fan-out rule + path effect counting",
+      "Decides what gates the insertion of a subscription (every grant condition dominates it; the role/type checker is simulated over all 16 assignments of its four comparisons), that the duplicate scan and the insertion are one critical section, what exactly the two removals keep (boolean retain formula evaluated over all assignments), that a miss is an error, that NotifySubscribers sends one correctly wired Notify per entry of the per-feature query, and that SetData/UpdateData/remote writes notify exactly once iff the store succeeded. Necessary conditions; value semantics of the equalities and histories are not decided.",
+      "Trusted: go/ssa, go/types; reflect.DeepEqual and the address getters are uninterpreted.",
+      "DESIGN.md §4 C08")
+claim("C09",
+      "lockset critical-section rule + retain-predicate truth tables + dominance guards + truth-table simulation of the role/type checker",
+      "Decides that the single-binding look-up and the insertion share one critical section of the lock held at every insertion site (and that a look-up exists), that RemoveBinding keeps an entry iff not (client address and server feature both equal) and the per-entity removal iff not (peer and entity both equal) — evaluated over all assignments of the comparison atoms —, and that every grant condition dominates the insertion. Necessary conditions of the registry property; interleavings beyond the check/insert split and registry contents over histories are not decided.",
+      "Trusted: go/ssa, go/types; reflect.DeepEqual and the address getters are uninterpreted.",
+      "DESIGN.md §4 C09")
